@@ -21,6 +21,8 @@ static const char* h_key; static const char* h_elm; static size_t h_klen, h_elen
 size_t verif_strlen_ghost(const char* s) { return s == h_key ? h_klen : h_elen; }
 
 void harness(void) {
+    GHOST_INDICES_ARBITRARY();
+    h_klen = nondet_size(); h_elen = nondet_size();
     size_t nk = nondet_size(), ne = nondet_size();
     __CPROVER_assume(nk >= 1 && nk <= KEY_OBJ && ne >= 1 && ne <= ELM_OBJ);
     char* key = malloc(nk); char* elm = malloc(ne);
